@@ -13,91 +13,25 @@
 (* (TakeUntil(sig)(src): 1 = src, 2 = sig / boundary / tick).              *)
 (* Values are distinguishable per source (source s emits 10*s + j).        *)
 (***************************************************************************)
-EXTENDS Integers, Sequences, FiniteSets, TLC, Json
+EXTENDS MultiDef, Json
 
 CONSTANTS Insts,       \* set of operator instances
           MaxSteps,    \* harness actions after Subscribe
           MaxPerSrc,   \* notifications per source (terminal included)
-          Cuts         \* BOOLEAN: also enumerate an Unsubscribe at every position
+          Cuts,        \* BOOLEAN: also enumerate an Unsubscribe at every position
+          PanicSrcs    \* set of choices for the source whose teardown panics (0 = none): C03, a panicking teardown does not stop the others
 
-N(v, c) == [k |-> "N", v |-> v, c |-> c]
-E(e, c) == [k |-> "E", v |-> e, c |-> c]
-C(c)    == [k |-> "C", v |-> 0, c |-> c]
-SubCtx == {"sub"}
 Mark(s, j) == IF s = 1 THEN <<"i10", "i11", "i12", "i13">>[j + 1] ELSE IF s = 2 THEN <<"i20", "i21", "i22", "i23">>[j + 1] ELSE <<"i30", "i31", "i32", "i33">>[j + 1]
 TMark(s) == <<"t", "t2", "t3">>[s]
 
 VARIABLES m,        \* the operator instance
           st,       \* operator state (record below)
           phase, closed, unsub, log, h,
-          sent      \* sent[s]: notifications source s has emitted so far
+          sent,     \* sent[s]: notifications source s has emitted so far
+          psrc      \* the source whose teardown panics (0 = none); it changes nothing in what must be observed
 
-vars == <<m, st, phase, closed, unsub, log, h, sent>>
+vars == <<m, st, phase, closed, unsub, log, h, sent, psrc>>
 Srcs == 1..m.k
-
-\* live: subscribed and neither ended by itself nor released by the operator
-St0 == [live |-> {}, ended |-> {}, torn |-> {}, subs |-> {}, done |-> FALSE,
-        last |-> [s \in 1..3 |-> <<>>],   \* CombineLatest / SampleWhen: latest notification per source (<<>> = none)
-        q |-> [s \in 1..3 |-> <<>>],      \* Zip: queue per source
-        won |-> 0, flag |-> FALSE, buf |-> <<>>]
-
-R(s, out) == [st |-> s, out |-> out]
-Others(s) == Srcs \ {s}
-AllEnded(s2) == s2.ended = Srcs
-
-(* one arrival n from source s, for an operator that has not terminated *)
-MStep(s, n) ==
-  LET c == n.c  v == n.v
-      ended1 == [st EXCEPT !.ended = @ \cup {s}]          \* the source ended by itself
-  IN
-  CASE m.op = "Merge" ->
-         CASE n.k = "N" -> R(st, <<n>>)
-           [] n.k = "E" -> R(ended1, <<n>>)
-           [] OTHER     -> IF AllEnded(ended1) THEN R(ended1, <<C(SubCtx)>>) ELSE R(ended1, <<>>)   \* completion carries the outer completion context
-    [] m.op = "CombineLatest" ->
-         CASE n.k = "N" -> LET l2 == [st.last EXCEPT ![s] = <<n>>] s2 == [st EXCEPT !.last = l2] IN
-                           IF \A x \in Srcs : l2[x] # <<>> THEN R(s2, <<N([x \in Srcs |-> l2[x][1].v], c)>>) ELSE R(s2, <<>>)
-           [] n.k = "E" -> R(ended1, <<n>>)
-           [] OTHER     -> IF AllEnded(ended1) THEN R(ended1, <<C(c)>>) ELSE R(ended1, <<>>)
-    [] m.op = "Zip" ->
-         CASE n.k = "N" -> LET q2 == [st.q EXCEPT ![s] = Append(@, v)] IN
-                           IF \A x \in Srcs : q2[x] # <<>>
-                             THEN LET q3 == [x \in 1..3 |-> IF x \in Srcs THEN Tail(q2[x]) ELSE <<>>]
-                                      tup == N([x \in Srcs |-> q2[x][1]], c)
-                                  \* completes once a finished source's queue is drained
-                                  IN IF \E x \in Srcs : x \in st.ended /\ q3[x] = <<>>
-                                       THEN R([st EXCEPT !.q = q3], <<tup, C(c)>>) ELSE R([st EXCEPT !.q = q3], <<tup>>)
-                             ELSE R([st EXCEPT !.q = q2], <<>>)
-           [] n.k = "E" -> R(ended1, <<n>>)
-           [] OTHER     -> IF st.q[s] = <<>> THEN R(ended1, <<C(c)>>) ELSE R(ended1, <<>>)
-    [] m.op = "Race" ->
-         IF st.won = 0
-           THEN R([(IF n.k = "N" THEN st ELSE ended1) EXCEPT !.won = s, !.torn = @ \cup (st.live \ {s}), !.live = @ \cap {s}], <<n>>)
-           ELSE R(IF n.k = "N" THEN st ELSE ended1, <<n>>)            \* only the winner is still live
-    [] m.op = "TakeUntil" ->
-         IF s = 1 THEN R(IF n.k = "N" THEN st ELSE ended1, <<n>>)
-         ELSE IF n.k = "N" THEN R(st, <<C(c)>>) ELSE R(ended1, <<>>)   \* the notifier's own terminal is ignored (pinned)
-    [] m.op = "SkipUntil" ->
-         IF s = 1 THEN IF n.k = "N" THEN (IF st.flag THEN R(st, <<n>>) ELSE R(st, <<>>)) ELSE R(ended1, <<n>>)
-         ELSE IF n.k = "N" THEN R([st EXCEPT !.flag = TRUE], <<>>) ELSE R(ended1, <<>>)
-    [] m.op = "BufferWhen" ->
-         CASE n.k = "E" -> R(ended1, <<n>>)
-           [] n.k = "C" -> R(ended1, <<N(st.buf, c), C(c)>>)                 \* source or boundary completion flushes the rest (pinned)
-           [] s = 1     -> R([st EXCEPT !.buf = Append(@, v)], <<>>)
-           [] OTHER     -> R([st EXCEPT !.buf = <<>>], <<N(st.buf, c)>>)      \* boundary: emit the (possibly empty) buffer
-    [] m.op = "SampleWhen" ->
-         CASE n.k = "E" -> R(ended1, <<n>>)
-           [] n.k = "C" -> R(ended1, <<n>>)                                  \* a pending sample is dropped (pinned)
-           [] s = 1     -> R([st EXCEPT !.last[1] = <<n>>], <<>>)
-           [] OTHER     -> IF st.last[1] # <<>> THEN R([st EXCEPT !.last[1] = <<>>], st.last[1]) ELSE R(st, <<>>)
-    [] m.op = "ThrottleWhen" ->
-         CASE n.k = "E" -> R(ended1, <<n>>)
-           [] n.k = "C" -> R(ended1, <<n>>)
-           [] s = 1     -> IF st.flag THEN R([st EXCEPT !.flag = FALSE], <<n>>) ELSE R(st, <<>>)
-           [] OTHER     -> R([st EXCEPT !.flag = TRUE], <<>>)
-    [] OTHER -> Assert(FALSE, <<"Multi: unknown operator", m.op>>)
-
-HasTerminal(out) == \E j \in 1..Len(out) : out[j].k \in {"E", "C"}
 
 Obs(d, cl, s2) == [log |-> d, closed |-> cl,
                    subs |-> [x \in Srcs |-> IF x \in s2.subs THEN 1 ELSE 0],
@@ -107,6 +41,7 @@ Init ==
   /\ m \in Insts
   /\ st = St0 /\ phase = "new" /\ closed = FALSE /\ unsub = FALSE /\ log = <<>> /\ h = <<>>
   /\ sent = [s \in 1..3 |-> 0]
+  /\ psrc \in {x \in PanicSrcs : x <= m.k}
 
 Subscribe ==
   /\ phase = "new"
@@ -114,24 +49,18 @@ Subscribe ==
      /\ st' = s2
      /\ h' = Append(h, [do |-> "sub", src |-> 0, n |-> C({}), exp |-> Obs(<<>>, FALSE, s2)])
   /\ phase' = "run"
-  /\ UNCHANGED <<m, closed, unsub, log, sent>>
+  /\ UNCHANGED <<m, closed, unsub, log, sent, psrc>>
 
 Push(s, n) ==
   /\ phase = "run" /\ Len(h) <= MaxSteps /\ s \in Srcs
   /\ s \notin st.ended /\ sent[s] < MaxPerSrc
-  /\ LET active == s \in st.live /\ ~st.done
-         r == IF active THEN MStep(s, n) ELSE R(IF n.k = "N" THEN st ELSE [st EXCEPT !.ended = @ \cup {s}], <<>>)
-         d == IF closed THEN <<>> ELSE r.out
-         term == HasTerminal(d)
-         \* an error or a completion of the output releases every other source at once (C05 / C14)
-         s2 == IF term THEN [r.st EXCEPT !.done = TRUE, !.torn = @ \cup (r.st.live \ r.st.ended), !.live = {}]
-                       ELSE [r.st EXCEPT !.live = @ \ r.st.ended]
-     IN /\ st' = s2
-        /\ log' = log \o d
-        /\ closed' = (closed \/ term)
-        /\ h' = Append(h, [do |-> "push", src |-> s, n |-> n, exp |-> Obs(d, closed \/ term, s2)])
+  /\ LET a == ArriveF(m, st, closed, s, n)
+     IN /\ st' = a.st
+        /\ log' = log \o a.out
+        /\ closed' = a.closed
+        /\ h' = Append(h, [do |-> "push", src |-> s, n |-> n, exp |-> Obs(a.out, a.closed, a.st)])
   /\ sent' = [sent EXCEPT ![s] = @ + 1]
-  /\ UNCHANGED <<m, phase, unsub>>
+  /\ UNCHANGED <<m, phase, unsub, psrc>>
 
 Unsub ==
   /\ Cuts /\ phase = "run" /\ ~unsub /\ Len(h) <= MaxSteps
@@ -139,7 +68,7 @@ Unsub ==
      /\ st' = s2
      /\ h' = Append(h, [do |-> "unsub", src |-> 0, n |-> C({}), exp |-> Obs(<<>>, TRUE, s2)])
   /\ unsub' = TRUE /\ closed' = TRUE
-  /\ UNCHANGED <<m, phase, log, sent>>
+  /\ UNCHANGED <<m, phase, log, sent, psrc>>
 
 Notifs(s) == {N(10 * s + sent[s], SubCtx \cup {Mark(s, sent[s])}), E(s, SubCtx \cup {TMark(s)}), C(SubCtx \cup {TMark(s)})}
 
@@ -154,5 +83,5 @@ Grammar == \A j \in 1..Len(log) : j < Len(log) => log[j].k = "N"
 ClosedReleasesAll == closed => st.live = {}
 TypeOK == st.live \cap st.torn = {} /\ st.live \cap st.ended = {}
 
-EmitCase == Done => PrintT(ToJson([m |-> m, steps |-> h]))
+EmitCase == Done => PrintT(ToJson([m |-> m, steps |-> h, panic |-> psrc]))
 =============================================================================
